@@ -103,14 +103,22 @@ namespace Pistache::Http
         bool match_attribute(const char* name, size_t len, StreamCursor& cursor,
                              Cookie* obj, T Cookie::*attr)
         {
+            StreamCursor::Revert revert(cursor);
             if (match_string(name, len, cursor))
             {
+                // The name must be the whole token: "Pathx=1" or "SecureFoo=1" are
+                // extension attributes, not Path / Secure followed by garbage
+                if (!cursor.eof() && cursor.current() != '=' && cursor.current() != ';')
+                    return false;
+                revert.ignore();
+
                 AttributeMatcher<T>::match(cursor, obj, attr);
                 cursor.advance(1);
 
                 return true;
             }
 
+            revert.ignore();
             return false;
         }
 
